@@ -1,0 +1,727 @@
+//! Verification-build container models. Compiled only with `--cfg mila_verif`.
+//!
+//! The bounded model checker used by /verif cannot execute `std::collections::HashMap`
+//! (its `RandomState` needs OS randomness and the hashbrown probe loop does not unroll in
+//! reasonable time) nor `indexmap::IndexMap`. In the verification build the import lines of
+//! the archive modules are switched to the models below. They implement the documented
+//! contracts of the real containers for the subset of the API that mila uses:
+//!
+//! * `HashMap` / `HashSet`: a key maps to at most one value; iteration visits every entry
+//!   exactly once in an *unspecified* order. The model stores entries in `CAP` slots. When
+//!   `NONDET_ORDER` is on, a new key is placed in an arbitrary free slot (chosen by the
+//!   solver), so iteration may observe any order, which is what "unspecified" means.
+//! * `IndexMap`: entries are kept in insertion order; `shift_remove` preserves the order of
+//!   the remaining entries, `swap_remove` moves the last entry into the hole.
+//!
+//! Exceeding `CAP` entries is an assertion failure ("verif model capacity exceeded"), never
+//! a silent truncation.
+
+use std::borrow::Borrow;
+
+pub const CAP: usize = 4;
+
+/// When true (set by a harness), new `HashMap` keys are placed in a solver-chosen free slot.
+pub static mut NONDET_ORDER: bool = false;
+
+pub fn set_nondet_order(on: bool) {
+    unsafe {
+        NONDET_ORDER = on;
+    }
+}
+
+#[cfg(kani)]
+fn choose_slot(free_count: usize) -> usize {
+    if unsafe { NONDET_ORDER } {
+        let pick: usize = kani::any();
+        kani::assume(pick < free_count);
+        pick
+    } else {
+        0
+    }
+}
+
+#[cfg(not(kani))]
+fn choose_slot(_free_count: usize) -> usize {
+    0
+}
+
+// ---------------------------------------------------------------------------------------
+// HashMap
+// ---------------------------------------------------------------------------------------
+
+pub struct HashMap<K, V> {
+    slots: [Option<(K, V)>; CAP],
+}
+
+impl<K, V> HashMap<K, V> {
+    pub fn new() -> Self {
+        HashMap {
+            slots: [const { None }; CAP],
+        }
+    }
+
+    pub fn len(&self) -> usize {
+        let mut n = 0;
+        for i in 0..CAP {
+            if self.slots[i].is_some() {
+                n += 1;
+            }
+        }
+        n
+    }
+
+    pub fn is_empty(&self) -> bool {
+        self.len() == 0
+    }
+
+    pub fn iter(&self) -> Iter<'_, K, V> {
+        Iter {
+            slots: &self.slots,
+            pos: 0,
+        }
+    }
+
+    pub fn keys(&self) -> Keys<'_, K, V> {
+        Keys { inner: self.iter() }
+    }
+
+    pub fn values(&self) -> Values<'_, K, V> {
+        Values { inner: self.iter() }
+    }
+
+    pub fn clear(&mut self) {
+        for i in 0..CAP {
+            self.slots[i] = None;
+        }
+    }
+
+    /// Index of the `n`-th free slot (n counted from 0).
+    fn nth_free(&self, n: usize) -> usize {
+        let mut seen = 0;
+        for i in 0..CAP {
+            if self.slots[i].is_none() {
+                if seen == n {
+                    return i;
+                }
+                seen += 1;
+            }
+        }
+        panic!("verif model capacity exceeded");
+    }
+}
+
+impl<K: Eq, V> HashMap<K, V> {
+    fn find<Q: ?Sized + Eq>(&self, key: &Q) -> Option<usize>
+    where
+        K: Borrow<Q>,
+    {
+        for i in 0..CAP {
+            if let Some((k, _)) = &self.slots[i] {
+                if k.borrow() == key {
+                    return Some(i);
+                }
+            }
+        }
+        None
+    }
+
+    pub fn get<Q: ?Sized + Eq>(&self, key: &Q) -> Option<&V>
+    where
+        K: Borrow<Q>,
+    {
+        match self.find(key) {
+            Some(i) => self.slots[i].as_ref().map(|e| &e.1),
+            None => None,
+        }
+    }
+
+    pub fn get_mut<Q: ?Sized + Eq>(&mut self, key: &Q) -> Option<&mut V>
+    where
+        K: Borrow<Q>,
+    {
+        match self.find(key) {
+            Some(i) => self.slots[i].as_mut().map(|e| &mut e.1),
+            None => None,
+        }
+    }
+
+    pub fn contains_key<Q: ?Sized + Eq>(&self, key: &Q) -> bool
+    where
+        K: Borrow<Q>,
+    {
+        self.find(key).is_some()
+    }
+
+    fn insert_new(&mut self, key: K, value: V) -> usize {
+        let free = CAP - self.len();
+        assert!(free > 0, "verif model capacity exceeded");
+        let slot = self.nth_free(choose_slot(free));
+        self.slots[slot] = Some((key, value));
+        slot
+    }
+
+    pub fn insert(&mut self, key: K, value: V) -> Option<V> {
+        match self.find(&key) {
+            Some(i) => {
+                let entry = self.slots[i].as_mut().unwrap();
+                Some(std::mem::replace(&mut entry.1, value))
+            }
+            None => {
+                self.insert_new(key, value);
+                None
+            }
+        }
+    }
+
+    pub fn remove<Q: ?Sized + Eq>(&mut self, key: &Q) -> Option<V>
+    where
+        K: Borrow<Q>,
+    {
+        match self.find(key) {
+            Some(i) => self.slots[i].take().map(|e| e.1),
+            None => None,
+        }
+    }
+
+    pub fn entry(&mut self, key: K) -> Entry<'_, K, V> {
+        Entry { map: self, key }
+    }
+}
+
+pub struct Entry<'a, K, V> {
+    map: &'a mut HashMap<K, V>,
+    key: K,
+}
+
+impl<'a, K: Eq, V> Entry<'a, K, V> {
+    pub fn or_insert(self, default: V) -> &'a mut V {
+        let slot = match self.map.find(&self.key) {
+            Some(i) => i,
+            None => self.map.insert_new(self.key, default),
+        };
+        &mut self.map.slots[slot].as_mut().unwrap().1
+    }
+
+    pub fn or_default(self) -> &'a mut V
+    where
+        V: Default,
+    {
+        self.or_insert(V::default())
+    }
+}
+
+impl<K, V> Default for HashMap<K, V> {
+    fn default() -> Self {
+        Self::new()
+    }
+}
+
+impl<K: Clone, V: Clone> Clone for HashMap<K, V> {
+    fn clone(&self) -> Self {
+        let mut result = HashMap::new();
+        for i in 0..CAP {
+            result.slots[i] = self.slots[i].clone();
+        }
+        result
+    }
+}
+
+impl<K: std::fmt::Debug, V: std::fmt::Debug> std::fmt::Debug for HashMap<K, V> {
+    fn fmt(&self, f: &mut std::fmt::Formatter<'_>) -> std::fmt::Result {
+        f.debug_map().entries(self.iter()).finish()
+    }
+}
+
+impl<K: Eq, V: PartialEq> PartialEq for HashMap<K, V> {
+    fn eq(&self, other: &Self) -> bool {
+        if self.len() != other.len() {
+            return false;
+        }
+        for (k, v) in self.iter() {
+            match other.get(k) {
+                Some(o) => {
+                    if o != v {
+                        return false;
+                    }
+                }
+                None => return false,
+            }
+        }
+        true
+    }
+}
+
+pub struct Iter<'a, K, V> {
+    slots: &'a [Option<(K, V)>; CAP],
+    pos: usize,
+}
+
+impl<'a, K, V> Iterator for Iter<'a, K, V> {
+    type Item = (&'a K, &'a V);
+
+    fn next(&mut self) -> Option<Self::Item> {
+        while self.pos < CAP {
+            let i = self.pos;
+            self.pos += 1;
+            if let Some((k, v)) = &self.slots[i] {
+                return Some((k, v));
+            }
+        }
+        None
+    }
+}
+
+pub struct Keys<'a, K, V> {
+    inner: Iter<'a, K, V>,
+}
+
+impl<'a, K, V> Iterator for Keys<'a, K, V> {
+    type Item = &'a K;
+
+    fn next(&mut self) -> Option<Self::Item> {
+        self.inner.next().map(|e| e.0)
+    }
+}
+
+pub struct Values<'a, K, V> {
+    inner: Iter<'a, K, V>,
+}
+
+impl<'a, K, V> Iterator for Values<'a, K, V> {
+    type Item = &'a V;
+
+    fn next(&mut self) -> Option<Self::Item> {
+        self.inner.next().map(|e| e.1)
+    }
+}
+
+pub struct IntoIter<K, V> {
+    slots: [Option<(K, V)>; CAP],
+    pos: usize,
+}
+
+impl<K, V> Iterator for IntoIter<K, V> {
+    type Item = (K, V);
+
+    fn next(&mut self) -> Option<Self::Item> {
+        while self.pos < CAP {
+            let i = self.pos;
+            self.pos += 1;
+            if let Some(entry) = self.slots[i].take() {
+                return Some(entry);
+            }
+        }
+        None
+    }
+}
+
+impl<K, V> IntoIterator for HashMap<K, V> {
+    type Item = (K, V);
+    type IntoIter = IntoIter<K, V>;
+
+    fn into_iter(self) -> Self::IntoIter {
+        IntoIter {
+            slots: self.slots,
+            pos: 0,
+        }
+    }
+}
+
+impl<'a, K, V> IntoIterator for &'a HashMap<K, V> {
+    type Item = (&'a K, &'a V);
+    type IntoIter = Iter<'a, K, V>;
+
+    fn into_iter(self) -> Self::IntoIter {
+        self.iter()
+    }
+}
+
+impl<K: Eq, V> std::iter::FromIterator<(K, V)> for HashMap<K, V> {
+    fn from_iter<I: IntoIterator<Item = (K, V)>>(iter: I) -> Self {
+        let mut result = HashMap::new();
+        for (k, v) in iter {
+            result.insert(k, v);
+        }
+        result
+    }
+}
+
+// ---------------------------------------------------------------------------------------
+// HashSet
+// ---------------------------------------------------------------------------------------
+
+pub struct HashSet<T> {
+    map: HashMap<T, ()>,
+}
+
+impl<T> HashSet<T> {
+    pub fn new() -> Self {
+        HashSet {
+            map: HashMap::new(),
+        }
+    }
+
+    pub fn len(&self) -> usize {
+        self.map.len()
+    }
+
+    pub fn is_empty(&self) -> bool {
+        self.map.is_empty()
+    }
+
+    pub fn iter(&self) -> Keys<'_, T, ()> {
+        self.map.keys()
+    }
+}
+
+impl<T: Eq> HashSet<T> {
+    pub fn insert(&mut self, value: T) -> bool {
+        self.map.insert(value, ()).is_none()
+    }
+
+    pub fn contains<Q: ?Sized + Eq>(&self, value: &Q) -> bool
+    where
+        T: Borrow<Q>,
+    {
+        self.map.contains_key(value)
+    }
+
+    pub fn remove<Q: ?Sized + Eq>(&mut self, value: &Q) -> bool
+    where
+        T: Borrow<Q>,
+    {
+        self.map.remove(value).is_some()
+    }
+}
+
+impl<T> Default for HashSet<T> {
+    fn default() -> Self {
+        Self::new()
+    }
+}
+
+impl<T: std::fmt::Debug> std::fmt::Debug for HashSet<T> {
+    fn fmt(&self, f: &mut std::fmt::Formatter<'_>) -> std::fmt::Result {
+        f.debug_set().entries(self.iter()).finish()
+    }
+}
+
+impl<T: Eq> std::iter::FromIterator<T> for HashSet<T> {
+    fn from_iter<I: IntoIterator<Item = T>>(iter: I) -> Self {
+        let mut result = HashSet::new();
+        for v in iter {
+            result.insert(v);
+        }
+        result
+    }
+}
+
+// ---------------------------------------------------------------------------------------
+// IndexMap
+// ---------------------------------------------------------------------------------------
+
+pub struct IndexMap<K, V> {
+    entries: [Option<(K, V)>; CAP],
+    len: usize,
+}
+
+impl<K, V> IndexMap<K, V> {
+    pub fn new() -> Self {
+        IndexMap {
+            entries: [const { None }; CAP],
+            len: 0,
+        }
+    }
+
+    pub fn len(&self) -> usize {
+        self.len
+    }
+
+    pub fn is_empty(&self) -> bool {
+        self.len == 0
+    }
+
+    pub fn iter(&self) -> IndexIter<'_, K, V> {
+        IndexIter {
+            entries: &self.entries,
+            len: self.len,
+            pos: 0,
+        }
+    }
+
+    pub fn keys(&self) -> IndexKeys<'_, K, V> {
+        IndexKeys { inner: self.iter() }
+    }
+
+    pub fn values(&self) -> IndexValues<'_, K, V> {
+        IndexValues { inner: self.iter() }
+    }
+
+    pub fn first(&self) -> Option<(&K, &V)> {
+        self.get_index(0)
+    }
+
+    pub fn get_index(&self, index: usize) -> Option<(&K, &V)> {
+        if index < self.len {
+            self.entries[index].as_ref().map(|e| (&e.0, &e.1))
+        } else {
+            None
+        }
+    }
+}
+
+impl<K: Eq, V> IndexMap<K, V> {
+    fn find<Q: ?Sized + Eq>(&self, key: &Q) -> Option<usize>
+    where
+        K: Borrow<Q>,
+    {
+        for i in 0..CAP {
+            if i >= self.len {
+                break;
+            }
+            if let Some((k, _)) = &self.entries[i] {
+                if k.borrow() == key {
+                    return Some(i);
+                }
+            }
+        }
+        None
+    }
+
+    pub fn get_index_of<Q: ?Sized + Eq>(&self, key: &Q) -> Option<usize>
+    where
+        K: Borrow<Q>,
+    {
+        self.find(key)
+    }
+
+    pub fn get<Q: ?Sized + Eq>(&self, key: &Q) -> Option<&V>
+    where
+        K: Borrow<Q>,
+    {
+        match self.find(key) {
+            Some(i) => self.entries[i].as_ref().map(|e| &e.1),
+            None => None,
+        }
+    }
+
+    pub fn get_mut<Q: ?Sized + Eq>(&mut self, key: &Q) -> Option<&mut V>
+    where
+        K: Borrow<Q>,
+    {
+        match self.find(key) {
+            Some(i) => self.entries[i].as_mut().map(|e| &mut e.1),
+            None => None,
+        }
+    }
+
+    pub fn contains_key<Q: ?Sized + Eq>(&self, key: &Q) -> bool
+    where
+        K: Borrow<Q>,
+    {
+        self.find(key).is_some()
+    }
+
+    fn push_new(&mut self, key: K, value: V) -> usize {
+        assert!(self.len < CAP, "verif model capacity exceeded");
+        let index = self.len;
+        self.entries[index] = Some((key, value));
+        self.len += 1;
+        index
+    }
+
+    pub fn insert(&mut self, key: K, value: V) -> Option<V> {
+        match self.find(&key) {
+            Some(i) => {
+                let entry = self.entries[i].as_mut().unwrap();
+                Some(std::mem::replace(&mut entry.1, value))
+            }
+            None => {
+                self.push_new(key, value);
+                None
+            }
+        }
+    }
+
+    pub fn shift_remove<Q: ?Sized + Eq>(&mut self, key: &Q) -> Option<V>
+    where
+        K: Borrow<Q>,
+    {
+        match self.find(key) {
+            Some(i) => {
+                let removed = self.entries[i].take();
+                for j in i..(CAP - 1) {
+                    if j + 1 < self.len {
+                        self.entries[j] = self.entries[j + 1].take();
+                    }
+                }
+                self.len -= 1;
+                removed.map(|e| e.1)
+            }
+            None => None,
+        }
+    }
+
+    pub fn swap_remove<Q: ?Sized + Eq>(&mut self, key: &Q) -> Option<V>
+    where
+        K: Borrow<Q>,
+    {
+        match self.find(key) {
+            Some(i) => {
+                let removed = self.entries[i].take();
+                let last = self.len - 1;
+                if i != last {
+                    self.entries[i] = self.entries[last].take();
+                }
+                self.len -= 1;
+                removed.map(|e| e.1)
+            }
+            None => None,
+        }
+    }
+
+    pub fn entry(&mut self, key: K) -> IndexEntry<'_, K, V> {
+        IndexEntry { map: self, key }
+    }
+}
+
+pub struct IndexEntry<'a, K, V> {
+    map: &'a mut IndexMap<K, V>,
+    key: K,
+}
+
+impl<'a, K: Eq, V> IndexEntry<'a, K, V> {
+    pub fn or_insert(self, default: V) -> &'a mut V {
+        let index = match self.map.find(&self.key) {
+            Some(i) => i,
+            None => self.map.push_new(self.key, default),
+        };
+        &mut self.map.entries[index].as_mut().unwrap().1
+    }
+
+    pub fn or_default(self) -> &'a mut V
+    where
+        V: Default,
+    {
+        self.or_insert(V::default())
+    }
+}
+
+impl<K, V> Default for IndexMap<K, V> {
+    fn default() -> Self {
+        Self::new()
+    }
+}
+
+impl<K: Clone, V: Clone> Clone for IndexMap<K, V> {
+    fn clone(&self) -> Self {
+        let mut result = IndexMap::new();
+        for i in 0..CAP {
+            result.entries[i] = self.entries[i].clone();
+        }
+        result.len = self.len;
+        result
+    }
+}
+
+impl<K: std::fmt::Debug, V: std::fmt::Debug> std::fmt::Debug for IndexMap<K, V> {
+    fn fmt(&self, f: &mut std::fmt::Formatter<'_>) -> std::fmt::Result {
+        f.debug_map().entries(self.iter()).finish()
+    }
+}
+
+pub struct IndexIter<'a, K, V> {
+    entries: &'a [Option<(K, V)>; CAP],
+    len: usize,
+    pos: usize,
+}
+
+impl<'a, K, V> Iterator for IndexIter<'a, K, V> {
+    type Item = (&'a K, &'a V);
+
+    fn next(&mut self) -> Option<Self::Item> {
+        if self.pos < self.len && self.pos < CAP {
+            let i = self.pos;
+            self.pos += 1;
+            self.entries[i].as_ref().map(|e| (&e.0, &e.1))
+        } else {
+            None
+        }
+    }
+}
+
+pub struct IndexKeys<'a, K, V> {
+    inner: IndexIter<'a, K, V>,
+}
+
+impl<'a, K, V> Iterator for IndexKeys<'a, K, V> {
+    type Item = &'a K;
+
+    fn next(&mut self) -> Option<Self::Item> {
+        self.inner.next().map(|e| e.0)
+    }
+}
+
+pub struct IndexValues<'a, K, V> {
+    inner: IndexIter<'a, K, V>,
+}
+
+impl<'a, K, V> Iterator for IndexValues<'a, K, V> {
+    type Item = &'a V;
+
+    fn next(&mut self) -> Option<Self::Item> {
+        self.inner.next().map(|e| e.1)
+    }
+}
+
+pub struct IndexIntoIter<K, V> {
+    entries: [Option<(K, V)>; CAP],
+    len: usize,
+    pos: usize,
+}
+
+impl<K, V> Iterator for IndexIntoIter<K, V> {
+    type Item = (K, V);
+
+    fn next(&mut self) -> Option<Self::Item> {
+        if self.pos < self.len && self.pos < CAP {
+            let i = self.pos;
+            self.pos += 1;
+            self.entries[i].take()
+        } else {
+            None
+        }
+    }
+}
+
+impl<K, V> IntoIterator for IndexMap<K, V> {
+    type Item = (K, V);
+    type IntoIter = IndexIntoIter<K, V>;
+
+    fn into_iter(self) -> Self::IntoIter {
+        IndexIntoIter {
+            entries: self.entries,
+            len: self.len,
+            pos: 0,
+        }
+    }
+}
+
+impl<'a, K, V> IntoIterator for &'a IndexMap<K, V> {
+    type Item = (&'a K, &'a V);
+    type IntoIter = IndexIter<'a, K, V>;
+
+    fn into_iter(self) -> Self::IntoIter {
+        self.iter()
+    }
+}
+
+impl<K: Eq, V> std::iter::FromIterator<(K, V)> for IndexMap<K, V> {
+    fn from_iter<I: IntoIterator<Item = (K, V)>>(iter: I) -> Self {
+        let mut result = IndexMap::new();
+        for (k, v) in iter {
+            result.insert(k, v);
+        }
+        result
+    }
+}
